@@ -3,6 +3,8 @@ package main
 // Type-level write effects: which heaps a function may store to.
 
 import (
+	"fmt"
+	"os"
 	"go/types"
 	"strings"
 
@@ -211,6 +213,9 @@ func (eng *Engine) callEffects(c *ssa.CallCommon, out map[string]bool, in *ssa.F
 			}
 			return
 		}
+		if os.Getenv("GVC_WHYSTAR") != "" {
+			fmt.Fprintf(os.Stderr, "star: interface call %s without contract in %s\n", key, in)
+		}
 		out["*"] = true
 		return
 	}
@@ -261,6 +266,9 @@ func (eng *Engine) callEffects(c *ssa.CallCommon, out map[string]bool, in *ssa.F
 			}
 			return
 		}
+		if os.Getenv("GVC_WHYSTAR") != "" {
+			fmt.Fprintf(os.Stderr, "star: call through a function value in %s\n", in)
+		}
 		out["*"] = true
 	}
 }
@@ -281,7 +289,8 @@ func (eng *Engine) effects(fn *ssa.Function) map[string]bool {
 	if e, ok := eng.effCache[fn]; ok {
 		return e
 	}
-	if ct := eng.contractFor(fn); ct != nil && (ct.HasMod || len(fn.Blocks) == 0 || !eng.inModule(fn)) {
+	if ct := eng.contractFor(fn); ct != nil && !(ct.Inline && len(fn.Blocks) > 0 && eng.inModule(fn)) && (ct.HasMod || len(fn.Blocks) == 0 || !eng.inModule(fn)) {
+		// (a contract marked inline is never applied at a call site: its body's effects count, not its modifies clause)
 		e := eng.contractEffects(ct, fn, fn.Signature)
 		eng.effCache[fn] = e
 		return e
